@@ -44,7 +44,7 @@ META = {
         technique='static analysis: signed-term linearisation of return expressions through reaching definitions (R-LIN) + einsum contraction-structure rules (R-EIN)',
         level='For all 8 distribution classes the linearised log_pdf / log-normaliser is checked atom by atom (sign, numeric coefficient, symbolic factors D, kappa, 1/2, Bessel order, '
               '1F1 arguments, sphere-area factor, partial-fraction form) and every quadratic / inner-product form on its contraction structure (conjugation, row index of the '
-              'precision Cholesky factor, per-feature scaling, reciprocal eigenvalues). Numerical values of special functions and integration to one are NOT decided.',
+              'precision Cholesky factor, per-feature scaling, reciprocal eigenvalues); the Bingham duplicate-eigenvalue spreading uses an absolute positive gap. Numerical values of special functions and integration to one are NOT decided.',
         note='Trusted: density definitions, scikit-learn factor contract Sigma^-1 = P P^T. An unrecognised atom is unresolved (floor on recognised atoms), never an alarm.',
         design='DESIGN.md section 3 (C07)'),
     'C08': dict(
@@ -87,14 +87,14 @@ META = {
     'C14': dict(
         technique='static analysis: permutation-provenance rules on term graphs (R-PERM), AST idiom recognisers for the exhaustive arg-max and greedy retire loops (R-SEL c/d)',
         level='apply_mapping is a pure gather; the inline EM alignment is value preserving with one mapping for affiliation and quadratic form; calculate_mapping of all three aligners '
-              'returns columns of permutation provenance; the greedy assignment meets the retire premises (K arg-max picks over a view-consistent copy, chosen row AND column retired with -inf, '
+              'returns columns of permutation provenance; the greedy assignment meets the retire premises (K arg-max picks over a view-consistent, on every path C-contiguous copy, chosen row AND column retired with -inf, '
               'row -> column, after the finiteness guard); both exhaustive searches enumerate every permutation of the full class count with a strict arg-max from -inf, paired update, no early exit.',
         note='Assumption: integer score matrices never contain iinfo.min. Trusted: semantics of itertools.permutations and numpy advanced indexing.',
         design='DESIGN.md section 3 (C14)'),
     'C15': dict(
         technique='static analysis: exhaustive arg-max loop recogniser (R-SEL c) + orientation typing of score matrices (einsum structure, transposes, argument order)',
         level='Optimality clause: complete strict arg-max enumeration with objective sum_k score[k, perm[k]]. Inversion clause, structural part: all score metrics are rows = reference / '
-              'columns = estimate, assignment maps row -> column, apply_mapping gathers the estimate, the oracle wires (mask, reference_mask) and its configured algorithm. '
+              'columns = estimate, assignment maps row -> column, apply_mapping gathers the estimate, the oracle wires (mask, reference_mask) and its configured algorithm; the cos score is free of the scale of its arguments (exact normalisers only). '
               'Exact inversion for every permutation field is NOT decided.',
         note='Shares rule instances with C14.',
         design='DESIGN.md section 3 (C15)'),
@@ -131,13 +131,13 @@ META = {
     'C18': dict(
         technique='static analysis: axis-parametricity rule, form rules on term graphs, integer typing of shape arithmetic, may-alias in-place analysis',
         level='Every axis-consuming call in the 9 mask functions takes its axis from a parameter (literals only on the restored 2-D working array); binary / ratio / amplitude / phase-sensitive / '
-              'complex masks have their defining form with the sum over source_axis; eps defaults are positive; flatten dimensions are integers; quantile direction per sign; no caller mutation. '
+              'complex masks have their defining form with the sum over source_axis; eps defaults are positive also in single precision; flatten dimensions are integers; quantile direction per sign; no caller mutation. '
               'Threshold semantics on values and ties are NOT decided.',
         note='Trusted: mask definitions in the statement; sibling lorenz_mask as reference idiom.',
         design='DESIGN.md section 3 (C18)'),
     'C19': dict(
         technique='static analysis: term identity rules for the power decomposition, AST idioms for self exclusion, constant-domain specialisation for the return_dict protocol, literal-axis rule',
-        level='Both SXR functions compute _sxr(S, I+N), _sxr(S, I), _sxr(S, N) with identical S and the first denominator the sum of the others (for the pure ratio _sxr); own-source exclusion; '
+        level='Both SXR functions compute _sxr(S, I+N), _sxr(S, I), _sxr(S, N) with identical S and the first denominator the sum of the others (for the pure ratio _sxr); own-source exclusion; input_sxr pools the sensors in the power domain (operands of _sxr are sensor means under average_channels, dB values are reduced over the source axis only); '
               'complete enumeration + arg-MAX output selection; return_dict True / prefix / False specialisations return dict / dict / tuple for both siblings; si_sdr reduces over -1 only with the '
               'projection form; set_snr exponent. dB values and scaling laws as numbers are NOT decided.',
         note='Trusted: metric definitions in the statement.',
